@@ -6,13 +6,13 @@ import (
 	"testing"
 
 	"github.com/btcsuite/btcutil/base58"
-	abci "github.com/cometbft/cometbft/abci/types"
 	dbm "github.com/cometbft/cometbft-db"
+	abci "github.com/cometbft/cometbft/abci/types"
 	sdk "github.com/cosmos/cosmos-sdk/types"
 	"github.com/cosmos/cosmos-sdk/types/query"
-	aoltypes "github.com/medibloc/panacea-core/v2/x/aol/types"
 	"github.com/cosmos/cosmos-sdk/types/tx/signing"
 	authsigning "github.com/cosmos/cosmos-sdk/x/auth/signing"
+	aoltypes "github.com/medibloc/panacea-core/v2/x/aol/types"
 	didtypes "github.com/medibloc/panacea-core/v2/x/did/types"
 	pnfttypes "github.com/medibloc/panacea-core/v2/x/pnft/types"
 
@@ -24,7 +24,9 @@ import (
 // open and the defect still reproduces the replay prints the KNOWN-FINDING line; it never
 // fails the check. Fixed entries have no replay: the generators produce their trigger again.
 
-func knownLine(f Finding) { fmt.Printf("KNOWN-FINDING: property=%s %s [%s]\n", f.Property, f.What, f.Key) }
+func knownLine(f Finding) {
+	fmt.Printf("KNOWN-FINDING: property=%s %s [%s]\n", f.Property, f.What, f.Key)
+}
 
 func findingByKey(key string) (Finding, bool) {
 	for _, f := range Findings() {
